@@ -224,6 +224,17 @@ func init() {
 			},
 		},
 		propCheck{
+			ID: "C51", Level: "exploration",
+			Rule: "one evaluation = one simulated history on a table with a FULLTEXT index over body or (title, body), columns in a case-insensitive or a binary collation: 4-20 (thorough: -36) steps by two sessions of INSERT (1-3 documents of 0-6 words from a 13-word vocabulary in varying case, short noise tokens, separators incl. hyphen and punctuation, NULLs), UPDATE of body / title, appending UPDATE over several rows, DELETE, REPLACE, BEGIN .. ROLLBACK / COMMIT, DROP INDEX and ADD FULLTEXT INDEX over the rows present, ADD / DROP COLUMN (table rewrite), a no-op UPDATE; in half of the runs a storage error is injected at edit call 1-8 of a quarter of the statements (the full-text editor writes several internal tables per row). After every step both sessions run three MATCH .. AGAINST searches (1-3 words, other case, absent and too-short words, with and without IN NATURAL LANGUAGE MODE) and one relevance > 0 filter: the ids returned must be exactly the documents containing at least one search word (words = runs of letters, digits, underscore of 3+ characters, compared under the column collation); the table equals the model; a failed statement leaves table and search results unchanged; distinct = distinct hash of the statement-kind/outcome sequence",
+			Real: []string{"sql/fulltext (default parser, editor, index tables), MATCH .. AGAINST expression and full-text filter / index access", "memory backend full-text pseudo-tables, table rewrite with full-text indexes, transactions", "DML / DDL execution"},
+			Stub: []string{"session scheduling at statement granularity (two sessions alternate; while a transaction is open only its session works)", "storage error source (verifhook.Fault at memory table editor calls, the full-text tables included)"},
+			Assumptions: []string{"ASCII vocabulary: accent handling of the collations is not exercised", "relevance values and result order by relevance are not compared, only membership", "boolean mode and query expansion are not generated (the property speaks of natural-language mode)"},
+			Subs: []subCheck{
+				{ID: "C51", World: "sqlsim", Quick: 3000, Thorough: 200000, QuickCap: 90, ThoroughCap: 1500, GC: "100",
+					Probes: []string{"non-empty-search-checked", "fulltext-index-rebuilt-over-rows"}},
+			},
+		},
+		propCheck{
 			ID: "C44", Level: "exploration",
 			Rule: "one evaluation = one simulated multi-session history over 13 representative system variables (bool, bounded int, double, enum; both-scope, global-only, read-only) and 3 user variables: SET [SESSION|GLOBAL|default] with valid, boundary, out-of-range and wrong-type values, wrong scopes and read-only variables; SET @u = NULL / int / string / expression; sessions connect (inherit the current globals) and disconnect; after every step the touched variable is read in every scope of every session, and periodically everything is, against a model (global store + per-session store initialised from the globals + per-session user variables); non-trivial = >= 2 sessions; distinct = distinct hash of the action/outcome sequence",
 			Real: []string{"SET / SELECT @@ planning and execution", "sql.SystemVariables global registry, BaseSession system and user variable stores, system variable types' Convert"},
